@@ -8,7 +8,7 @@ V = os.path.dirname(os.path.dirname(os.path.abspath(__file__)))
 tier = sys.argv[1] if len(sys.argv) > 1 else "quick"
 only = sys.argv[2:]
 import hashlib, shutil
-WT = "/tmp/wt-matrix"
+WT = os.environ.get("MATRIX_WT", "/tmp/wt-matrix")   # several matrices may run side by side, each with a worktree of its own
 subprocess.run(["git", "-C", "/repo", "worktree", "remove", "--force", WT], capture_output=True)
 shutil.rmtree(WT, ignore_errors=True)
 subprocess.run(["git", "-C", "/repo", "worktree", "prune"], capture_output=True)
@@ -28,7 +28,7 @@ for d in sorted(os.listdir(os.path.join(V, "seeded"))):
         print(d, "does not apply:", r.stderr[:200]); continue
     t0 = time.time()
     try:
-        p = subprocess.run(["./run", pid, tier], cwd=V, capture_output=True, text=True, env=dict(os.environ, VERIF_EVIDENCE_DIR="/tmp/seed_matrix_evidence", VERIF_REPO=WT))
+        p = subprocess.run(["./run", pid, tier], cwd=V, capture_output=True, text=True, env=dict(os.environ, VERIF_EVIDENCE_DIR="/tmp/seed_matrix_evidence" + WT.replace("/", "_"), VERIF_REPO=WT))
     finally:
         subprocess.run(["git", "-C", WT, "checkout", "--", "."])
     sigs = sorted(set(re.findall(r"^  signature: (.*)$", p.stdout, re.M)))
